@@ -299,6 +299,9 @@ func (p *parsing) parseExpr(tok token, canBeSwitchGuard, canElideType, mustBeTyp
 						if value == nil {
 							panic(syntaxError(tok.pos, "unexpected %s, expecting expression", tok))
 						}
+						if tok.typ != tokenComma && tok.typ != tokenRightBrace {
+							panic(syntaxError(tok.pos, "unexpected %s, expecting comma or }", tok))
+						}
 						keyValues = append(keyValues, ast.KeyValue{Key: expr, Value: value})
 					case tokenComma, tokenRightBrace:
 						keyValues = append(keyValues, ast.KeyValue{Key: nil, Value: expr})
